@@ -56,8 +56,23 @@ func (sp *simProxy) snapshot() string {
 	if !strings.Contains(out, "/") {
 		out += " -"
 	}
+	// the processor's own CLUSTER NODES requests (retried while a node is down) may be in flight at any instant: the
+	// upstream counters are conserved when, within a while, a reading finds total = success + failure
 	up := 0
-	if cs["upstream.rq_total"] == cs["upstream.rq_success_total"]+cs["upstream.rq_failure_total"] {
+	if waitFor(3*time.Second, func() bool {
+		var t, ok, ko uint64
+		for _, c := range stats.Counters() {
+			switch c.Name() {
+			case pre + "upstream.rq_total":
+				t = c.Value()
+			case pre + "upstream.rq_success_total":
+				ok = c.Value()
+			case pre + "upstream.rq_failure_total":
+				ko = c.Value()
+			}
+		}
+		return t == ok+ko
+	}) {
 		up = 1
 	}
 	return out + fmt.Sprintf(" || upstream_conserved=%d", up)
